@@ -217,6 +217,12 @@ def silent : List String → Option String
     let recips ← listOf? recip? recips
     pure (if recips.any (fun r => !(vp r.1) || !(vp r.2)) then "err value"
       else rend rList (outputKeys O Hh keys ops recips))
+  | ["sp.output_keys_walk", keys, ops, recips] => do
+    let keys ← listOf? keyFlag? keys
+    let ops ← bytesList? ops
+    let recips ← listOf? recip? recips
+    pure (if recips.any (fun r => !(vp r.1) || !(vp r.2)) then "err value"
+      else rend rList (outputKeysWalk O Hh keys ops recips))
   | ["sp.scan_outputs", b, sx, sy, tx, ty, outs, labels] => do
     let b ← parseInt? b
     let S ← point2? sx sy
